@@ -137,13 +137,54 @@ func (c *Ctx) claimConstruction() {
 			filter, _ = ast.Unparen(claimCall.Args[2]).(*ast.FuncLit)
 		}
 	}
+	// the filter is "the pod's parent name is the set's name": at each of its returns, a true result implies the
+	// equality and a false one its negation (the parent name being the first result of getParentNameAndOrdinal)
 	okFilter := false
-	if filter != nil && len(filter.Body.List) == 1 {
-		if ret, ok := filter.Body.List[0].(*ast.ReturnStmt); ok && len(ret.Results) == 1 {
-			pod := filter.Type.Params.List[0].Names[0]
-			got := fn.Formula(ret.Results[0]).String()
-			want := c.Want(fn, ret.Pos(), "getParentName($1) == $2.Name", pod, sets[0]).String()
-			okFilter = got == want
+	if pn, _ := c.P.Lookup(load.CtrlPkg, "getParentNameAndOrdinal").(*types.Func); filter != nil && pn != nil && len(filter.Type.Params.List) == 1 && len(filter.Type.Params.List[0].Names) == 1 {
+		lfn, lan := c.LitAnalysis(info, filter, fi.Obj.Name()+"$filter")
+		pod := filter.Type.Params.List[0].Names[0]
+		ct := gf.CallT(pn.FullName(), nil, lfn.Term(pod))
+		ct.Fn = pn
+		parent := gf.ProjOf(ct, 0, types.Typ[types.String])
+		if setName := c.TryWantTerm(fn, claimCall.Pos(), "$1.Name", sets[0]); setName != nil {
+			eq := gf.FEq(parent, setName)
+			okFilter = true
+			nRet := 0
+			for _, bd := range lfn.Bodies()[:1] {
+				ownNodes(bd, func(n ast.Node) {
+					ret, ok := n.(*ast.ReturnStmt)
+					if !ok || len(ret.Results) != 1 {
+						return
+					}
+					nRet++
+					st := lan.StateBefore(ret)
+					if !st.Reachable() {
+						return
+					}
+					r := lfn.Formula(ret.Results[0])
+					if call, isCall := ast.Unparen(ret.Results[0]).(*ast.CallExpr); isCall && lfn.IsExpandedCall(call) {
+						for _, site := range lfn.InlinedAt(ret) {
+							if site.Call == call && len(site.Res) == 1 {
+								r = gf.FBool(gf.Var(site.Res[0]))
+								st = lan.StateAtExpr(call)
+							}
+						}
+					}
+					if yes := st.Assume(r); yes.Reachable() {
+						if g, _ := yes.Implies(eq); !g {
+							okFilter = false
+						}
+					}
+					if no := st.Assume(gf.Not(r)); no.Reachable() {
+						if g, _ := no.Implies(gf.Not(eq)); !g {
+							okFilter = false
+						}
+					}
+				})
+			}
+			if nRet == 0 {
+				okFilter = false
+			}
 		}
 	}
 	c.Check(okFilter, "C10.1-membership-filter", fi.Obj.Name()+": ClaimPods filter", claimCall.Pos(), "filter is `parent name of the pod == set.Name`", "pods are claimed without the parent-name filter (or with a different one)")
@@ -653,25 +694,51 @@ func (c *Ctx) adoptOnlyOrphans(rule string) {
 		}
 	}
 	c.Floor(rule+"-adopter-call-sites", n, 1)
-	// the adopter itself rejects owned revisions (the precondition this caller-side filter must agree with)
-	if ad := c.Func(load.CtrlPkg, "defaultStatefulSetControl.adoptControllerRevision"); ad != nil {
+	// the adoption patch itself goes to orphans only (the precondition this caller-side filter must agree with): wherever
+	// the controller package patches a ControllerRevision, the revision named in the call has no controller
+	nPatch := 0
+	for _, s := range c.G.Sites {
+		if s.Class != "write" || s.Resource != "controllerrevisions" || s.Verb != "Patch" || len(s.Call.Args) < 2 {
+			continue
+		}
+		ad := c.P.FuncInfoOf(s.Fn)
+		if ad == nil || ad.Pkg.PkgPath != load.CtrlPkg {
+			continue
+		}
+		nPatch++
 		fn, an := c.Analysis(ad)
-		info := ad.Pkg.TypesInfo
-		for _, s := range c.G.Sites {
-			if s.Fn == ad.Obj && s.Class == "write" {
-				rev := paramsOfType(ad, "k8s.io/api/apps/v1", "ControllerRevision")
-				if len(rev) != 1 {
-					continue
-				}
-				var alts []*gf.Formula
-				for _, g := range []string{"GetControllerOf", "GetControllerOfNoCopy"} {
-					alts = append(alts, gf.FNil(gf.CallT("k8s.io/apimachinery/pkg/apis/meta/v1."+g, nil, fn.Term(rev[0]))))
-				}
-				c.Implies(an.StateAtExpr(s.Call), gf.Or(alts...), rule+"-adoption-patch-on-orphans-only", ad.Obj.Name()+": "+s.Resource+"."+s.Verb, s.Call.Pos())
-				_ = info
+		// the revision: X in X.GetName() / X.Name given as the name of the patched object
+		var rev ast.Expr
+		switch x := ast.Unparen(s.Call.Args[1]).(type) {
+		case *ast.CallExpr:
+			if sel, ok := ast.Unparen(x.Fun).(*ast.SelectorExpr); ok && sel.Sel.Name == "GetName" {
+				rev = sel.X
+			}
+		case *ast.SelectorExpr:
+			if x.Sel.Name == "Name" {
+				rev = x.X
 			}
 		}
+		name := tableShort(c, ad) + ": " + s.Resource + "." + s.Verb
+		if rev == nil {
+			c.Unk(rule+"-adoption-patch-on-orphans-only", name, s.Call.Pos(), "the patched revision is not named by <revision>.GetName() or <revision>.Name")
+			continue
+		}
+		var alts []*gf.Formula
+		for _, g := range []string{"GetControllerOf", "GetControllerOfNoCopy"} {
+			alts = append(alts, gf.FNil(gf.CallT("k8s.io/apimachinery/pkg/apis/meta/v1."+g, nil, fn.Term(rev))))
+		}
+		c.Implies(an.StateAtExpr(s.Call), gf.Or(alts...), rule+"-adoption-patch-on-orphans-only", name, s.Call.Pos())
 	}
+	c.Floor(rule+"-revision-patch-sites", nPatch, 1)
+}
+
+func tableShort(c *Ctx, fi *load.FuncInfo) string {
+	t := c.tableName(fi)
+	if i := strings.LastIndex(t, "."); i >= 0 {
+		t = t[i+1:]
+	}
+	return t
 }
 
 // cacheObjectsUnmodified: C10.7
